@@ -192,7 +192,9 @@ func reach(f *NF, list []ast.Stmt, target string, atoms map[string]string, live 
 			continue
 		}
 		if is.Init != nil {
-			if strings.Contains(f.Src(is), target) {
+			if strings.Contains(f.Src(is.Init), target) {
+				alts = append(alts, live) // `if err := <target>(…); err != nil { … }`: the call itself runs under `live`
+			} else if strings.Contains(f.Src(is), target) {
 				return "", false, fmt.Errorf("if with init around %q", target)
 			}
 			continue
@@ -205,6 +207,9 @@ func reach(f *NF, list []ast.Stmt, target string, atoms map[string]string, live 
 		}
 		c, err := boolExpr(f, is.Cond, atoms)
 		if err != nil {
+			if !inThen && !inElse {
+				continue // a guard about something else (error plumbing): it only makes the target rarer
+			}
 			return "", false, err
 		}
 		if inThen {
@@ -802,17 +807,25 @@ func gen(repo string) (map[string]string, error) {
 	allocI := stmtIdx(gsn, gsn.Decl.Body.List, "p.allocateDuringFilter(")
 	fact("`getSubnet`: for deployment pods `defer p.LockDpPool(keyObj.PoolPrefix())()` is taken before getAvailableSubnet (the count) and allocateDuringFilter (the allocation) - both inside the lock scope",
 		"getSubnetCountAndAllocateUnderPoolLock", lockOK && before(dpIfI, availI) && before(availI, allocI))
-	allocIf := findIf(gsn, gsn.Decl.Body, "reserve || isPoolSizeDefined", "subnetSet.Len() > 0")
-	allocErr := false
-	if allocIf != nil {
-		for _, d := range decisions(gsn, allocIf.Body.List) {
-			if strings.Contains(d[0], "p.allocateDuringFilter(") && strings.HasSuffix(d[0], "err != nil") && d[1] == "error" {
-				allocErr = true
-			}
-		}
+	allocWhen, ok, err := reach(gsn, gsn.Decl.Body.List, "p.allocateDuringFilter(", map[string]string{"reserve": "reserve",
+		"isPoolSizeDefined": "sized", "subnetSet.Len() > 0": "nonEmpty", "subnetSet.Len() == 0": "(!nonEmpty)",
+		"subnetSet.Len() != 0": "nonEmpty"}, "true")
+	if err != nil || !ok {
+		return nil, fmt.Errorf("filter.go getSubnet: cannot translate when allocateDuringFilter runs: %v", err)
 	}
-	fact("`getSubnet`: allocates during filter iff `(reserve || isPoolSizeDefined) && subnetSet.Len() > 0`, in the first subnet of the sorted list, and returns the error of allocateDuringFilter (no nodes are offered then)",
-		"getSubnetReturnsAllocError", allocIf != nil && allocErr && strings.Contains(gsn.Src(allocIf.Body), "subnetSet.List()[0]"))
+	say("`getSubnet`: the allocation during filter runs iff … (nonEmpty: the subnet set is not empty)",
+		"def filterAllocatesWhen (reserve sized nonEmpty : Bool) : Bool := "+allocWhen)
+	allocErr := false
+	ast.Inspect(gsn.Decl.Body, func(n ast.Node) bool {
+		if is, ok := n.(*ast.IfStmt); ok && is.Init != nil && strings.Contains(gsn.Src(is.Init), "p.allocateDuringFilter(") &&
+			gsn.Src(is.Cond) == "err != nil" && blockReturns(gsn, is.Body, "return nil, err") {
+			allocErr = true
+		}
+		return true
+	})
+	fact("`getSubnet`: the allocation during filter happens in the first subnet of the sorted list, and the error of allocateDuringFilter is returned (no nodes are offered then)",
+		"getSubnetReturnsAllocError", allocErr && strings.Contains(gsn.Text, "subnetSet.List()[0]") &&
+			strings.Count(gsn.Text, "p.allocateDuringFilter(") == 1)
 	fact("`getSubnet`: without requested ranges a pod whose key already owns an address is answered with that address' node subnets (`ipInfos[0].NodeSubnets`) before anything else is looked at",
 		"getSubnetAnswersOwnedFirst", strings.Contains(gsn.Text, "if len(ipranges) == 0 { if len(ipInfos) > 0 { return ipInfos[0].NodeSubnets, nil } }") &&
 			before(stmtIdx(gsn, gsn.Decl.Body.List, "if len(ipranges) == 0 {"), stmtIdx(gsn, gsn.Decl.Body.List, "p.supportReserveIPPolicy(")))
@@ -930,9 +943,24 @@ func gen(repo string) (map[string]string, error) {
 	})
 	fact("`ReserveIP`: `attr.Policy = constant.ReleasePolicy(v.Policy)` precedes BOTH the persisted clone `updateFloatingIP(v.CloneWith(newK, &attr, date))` (error returned) and the cached record `v.Assign(newK, &attr, date)`; nothing else writes a policy in between",
 		"reserveCopiesStoredPolicy", copyOK)
-	fact("`ReserveIP`: runs under cacheLock; touches exactly the records with `v.Key == oldK`; skips when nothing would change (`oldK == newK && v.PodUid == attr.Uid && v.NodeName == attr.NodeName`)",
-		"reserveShape", strings.HasPrefix(rsv.Text, "{ ci.cacheLock.Lock() defer ci.cacheLock.Unlock()") && strings.Contains(rsv.Text, "if v.Key == oldK {") &&
-			strings.Contains(rsv.Text, "if oldK == newK && v.PodUid == attr.Uid && v.NodeName == attr.NodeName { continue }"))
+	var rloop *ast.RangeStmt
+	for _, s := range rsv.Decl.Body.List {
+		if r, ok := s.(*ast.RangeStmt); ok && rsv.Src(r.X) == "ci.allocatedFIPs" {
+			rloop = r
+		}
+	}
+	if rloop == nil {
+		return nil, fmt.Errorf("ipam_crd.go: ReserveIP lost its loop over ci.allocatedFIPs")
+	}
+	touches, ok, err := reach(rsv, rloop.Body.List, "v.Assign(newK, &attr, date)", map[string]string{"v.Key == oldK": "keyMatches",
+		"v.Key != oldK": "(!keyMatches)", "oldK == newK": "sameKey", "v.PodUid == attr.Uid": "sameUid", "v.NodeName == attr.NodeName": "sameNode"}, "true")
+	if err != nil || !ok {
+		return nil, fmt.Errorf("ipam_crd.go ReserveIP: cannot translate which records are re-assigned: %v", err)
+	}
+	say("`ReserveIP`: a cached record is re-assigned iff … (keyMatches: v.Key == oldK; sameKey: oldK == newK; sameUid / sameNode: the record already carries the attributes)",
+		"def reserveTouches (keyMatches sameKey sameUid sameNode : Bool) : Bool := "+touches)
+	fact("`ReserveIP`: runs under cacheLock from its first statement to its end",
+		"reserveShape", strings.HasPrefix(rsv.Text, "{ ci.cacheLock.Lock() defer ci.cacheLock.Unlock()") && strings.Count(rsv.Text, "cacheLock.Unlock()") == 1)
 	asg, cw := forms["Assign"], forms["CloneWith"]
 	fact("`FloatingIP.Assign` writes key, `Policy = uint16(attr.Policy)`, node, uid, time; `CloneWith` builds the clone through Assign",
 		"assignWritesPolicyFromAttr", strings.Contains(asg.Text, "f.Key = key") && strings.Contains(asg.Text, "f.Policy = uint16(attr.Policy)") &&
@@ -949,6 +977,37 @@ func gen(repo string) (map[string]string, error) {
 			strings.Contains(awk.Text, "if v.Key == oldK && v.pool.nodeSubnets.Has(subnet)") &&
 			latestCmp == "v.UpdatedAt.UnixNano() > recordTs" && strings.Contains(awk.Text, "latest = v recordTs = v.UpdatedAt.UnixNano()") &&
 			strings.Contains(awk.Text, "cloned := latest.CloneWith(newK, &attr, date) if err := ci.updateFloatingIP(cloned); err != nil { return err } latest.Assign(newK, &attr, date) return nil"))
+
+	// ---------------------------------------------------------------- crd/crdcache.go getLister
+	gl := forms["getLister"]
+	gld := decisions(gl, gl.Decl.Body.List)
+	lockI2 := stmtIdx(gl, gl.Decl.Body.List, "c.lock.Lock()")
+	deferI2 := stmtIdx(gl, gl.Decl.Body.List, "defer c.lock.Unlock()")
+	var startIf *ast.IfStmt
+	startI := -1
+	for i, s := range gl.Decl.Body.List {
+		if is, ok := s.(*ast.IfStmt); ok && strings.Contains(gl.Src(is), "c.startedInformers[gvr]") && strings.Contains(gl.Src(is.Body), "cache.WaitForCacheSync(") {
+			startIf, startI = is, i
+		}
+	}
+	syncOK := false
+	if startIf != nil {
+		runI := stmtIdx(gl, startIf.Body.List, "informer.Informer().Run(")
+		waitI := stmtIdx(gl, startIf.Body.List, "cache.WaitForCacheSync(stopCh, informer.Informer().HasSynced)")
+		setI := stmtIdx(gl, startIf.Body.List, "c.startedInformers[gvr] = true")
+		// the flag is read, the informer started and waited for, and the flag written inside ONE lock scope that lasts
+		// to the end of the function (so a second caller can see the flag only after the first one's wait returned)
+		syncOK = before(lockI2, deferI2) && before(deferI2, startI) && before(runI, waitI) && setI >= 0 &&
+			strings.Count(gl.Text, "c.lock.Unlock()") == 1 && strings.Count(gl.Text, "c.startedInformers[gvr]") == 2 &&
+			stmtIdx(gl, gl.Decl.Body.List, "return informer.Lister()") > startI
+	}
+	_ = gld
+	fact("crd cache `getLister`: the started flag of a resource's informer is read and written, and the informer is started AND waited for (WaitForCacheSync), inside one `c.lock` scope that lasts to the end of the function - a caller sees a lister only after its initial LIST has been stored",
+		"crdListerHandedOutOnlyAfterSync", syncOK)
+	grp := forms["GetReplicas"]
+	fact("crd cache `GetReplicas`: the object is looked up in the lister returned by getLister; a lister error (NotFound) is returned as is",
+		"crdGetReplicasReadsSyncedLister", strings.Contains(grp.Text, "obj, err := c.getLister(gvr).ByNamespace(namespace).Get(name) if err != nil { return 0, err }") ||
+			strings.Contains(grp.Text, "lister := c.getLister(gvr) obj, err := lister.ByNamespace(namespace).Get(name) if err != nil { return 0, err }"))
 
 	// ---------------------------------------------------------------- bind.go allocateIP (C02)
 	alc := forms["allocateIP"]
